@@ -1,7 +1,8 @@
 """C12 - native code stays inside its buffers and the process never crashes.
 
-The C11 (complete), C10 and C03 (quick-size) drivers are executed again against
-the ASan+UBSan build of cencoding.c / speedups.c.  A point passes iff the worker
+The C11 (complete), C10, C03 and C15 (quick-size) drivers, plus C12's own sizing / large-count /
+write-path cells, are executed against the ASan+UBSan build of cencoding.c / speedups.c; cells that a
+sanitizer aborted are run a second time, to their end, under a recovering build.  A point passes iff the worker
 neither dies (signal, sanitizer report) nor reports a canary violation; value
 disagreements are C03/C10/C11's business, not this property's.
 """
@@ -12,43 +13,186 @@ LEVEL = "exploration"
 FLAVOUR = "asan"
 TIMEOUT = 300
 RULE = ("the complete C11 primitive lattice, the C10 thrift lattice (incl. payloads above the 500000-byte "
-        "serialisation buffer) and the C03 foreign-file lattices D1 (dictionary index widths 0..32) and D3 "
+        "serialisation buffer, the utf8 / column key-value payloads and the aggregate shapes of many medium "
+        "payloads) and the C03 foreign-file lattices D1 (dictionary index widths 0..32) and D3 "
         "(delta miniblock widths 0..64) re-executed under clang ASan+UBSan (alignment check off) with "
-        "exact-size heap buffers; a point is non-trivial when native code processed >= 1 value/byte")
+        "exact-size heap buffers and PYTHONMALLOC=malloc (bytes objects get redzones too). Added under the same "
+        "build: S sizing points of ThriftObject.to_bytes (key-value text above the floor on a footer without row "
+        "groups, one 510000-byte path_in_schema element, a statistics value of 499950 bytes that fits the buffer "
+        "but not what is left of it, a RowGroup root of 600 columns x 1000-byte statistics; thorough: a 4000-column "
+        "hive write); P primitive cells with counts above 2^16 (read_rle, read_bitpacked, read_bitpacked1, hybrid "
+        "streams with 3-byte run headers, delta, byte arrays: 70000 values, capacities n-1/n/n+1) and byte-array "
+        "items of every length 0..17, 31..33, 63..65 as the last item of the buffer (bytes and utf8); C03 D1 with "
+        "categories for v2 pages at widths 1,8,9,16, D10 (multi-page dictionary chunks), D3b (delta pages under "
+        "codecs: freshly allocated exact-size pages), D12 (zero-value pages); N the C15 nested lattice (all six "
+        "LIST/MAP shapes x INT64/UTF8 x PLAIN/dictionary x v1/v2, sequences of <= 2 rows in quick, the whole "
+        "quick C15 lattice in thorough); W one fastparquet write + read per column kind x v1/v2 (native write "
+        "path, self-made fast paths). Every cell that a sanitizer aborted (quick: except delta miniblock widths >= 57 and the "
+        "'extremes' series, which die under any build) is executed a second time to its end "
+        "under a recovering build (-fsanitize-recover, halt_on_error=0) and every distinct report (sanitizer, "
+        "error, function, access) of that pass is a signature of its own; "
+        "a point is non-trivial when native code processed >= 1 value/byte")
 ASSUMPTIONS = ["sanitiser coverage is of the C generated from the .pyx present in the working tree",
                "memory errors that stay inside one numpy allocation are seen only through canaries",
-               "unaligned little-endian loads are intended (alignment check disabled)"]
+               "unaligned little-endian loads are intended (alignment check disabled)",
+               "recovering pass: reports are deduplicated per code location within one worker process, so a "
+               "location reported for one cell may stay silent for a later cell of the same worker (the halting "
+               "pass has already attributed the first report of every aborted cell)",
+               "uncompressed pages are slices of the file buffer: reads past such a page are visible only in "
+               "the primitive cells and under a codec (D3b, D1 codec cells)"]
+
+
+REC_FLAGS = ["clang", "-O1", "-g", "-shared", "-fPIC", "-fwrapv", "-fno-strict-aliasing", "-w",
+             "-fsanitize=address,undefined", "-fno-sanitize=alignment",
+             "-fsanitize-recover=address,undefined", "-fno-omit-frame-pointer", "-shared-libasan"]
+REPORT_OPTS = ":print_legend=0:malloc_context_size=4:stack_trace_format='    #%n %p %F'"
+
+
+def c03_points(tier):
+    """C03 sub-lattices executed under the sanitised build (always at C03's quick size)"""
+    from mc.props import C03
+    allq = C03.points("quick")
+    pts = [p for p in allq if p["d"] in ("D1", "D3", "D4")]
+    if tier != "thorough":
+        def keep(p):
+            if p["d"] != "D1" or not (p.get("cats") or p["enc"] == "PLAIN_DICTIONARY"):
+                return True
+            # v2 pages read as categoricals decode into a scratch array of 1- or 4-byte items (core.read_data_page_v2)
+            return bool(p.get("cats")) and p["v"] == 2 and p["enc"] == "RLE_DICTIONARY" and "codec" not in p \
+                and p["width"] in (1, 8, 9, 16)
+        pts = [p for p in pts if keep(p)]
+    pts += [p for p in allq if p["d"] in ("D10", "D3b", "D12")]
+    return pts
+
+
+def c15_points(tier):
+    from mc.props import C15
+    if tier == "thorough":
+        return C15.points("quick")
+    return [dict(p, maxrows=2) for p in C15.points("quick") if p["elem"] in ("int64", "utf8")]
+
+
+def sizing_points(tier):
+    pts = []
+    for where, n in (("kv_r0", 499000), ("kv_r0", 510000), ("path_in_schema", 510000), ("stat_max", 499950),
+                     ("rowgroup_root", 1000)):
+        for route in ("R1", "R2"):
+            pts.append({"kind": "sizing", "where": where, "n": n, "route": route, "_fresh": True})
+    if tier == "thorough":
+        pts.append({"kind": "sizing", "where": "write_hive_wide", "n": 4000, "route": "write", "_fresh": True})
+    return pts
+
+
+BIG_N = 70000       # > 2^16 values: 3-byte run headers, counters wider than 16 bits
+
+
+def prim12_points(tier):
+    pts = [{"prim12": "rle_big"}, {"prim12": "bitpacked_big"}, {"prim12": "hybrid_big"}, {"prim12": "bool_big"},
+           {"prim12": "delta_big", "longval": 0}, {"prim12": "delta_big", "longval": 1},
+           {"prim12": "byte_array_big"}, {"prim12": "byte_array_lens"}]
+    return pts
+
+
+def written_points(tier):
+    from mc import alphabets as A
+    return [{"kind": "written12", "colkind": k, "v": v} for k in A.ALL_KINDS for v in (1, 2)]
 
 
 def explore(run, tier):
     from mc.props import C11, C10
+    from mc import build
+    run.env["ASAN_OPTIONS"] += REPORT_OPTS      # short reports: the frames of the faulting stack fit the log tail
+    run.env["UBSAN_OPTIONS"] += REPORT_OPTS
+    aborted = []
+    walls = run.extra.setdefault("lattice_wall_s", {})
+
+    def lattice(name, pts, fn, collect=True):
+        import time
+        t = time.time()
+        res = run.lattice(name, pts, fn)
+        walls[name] = round(time.time() - t, 1)
+        if not collect:
+            return res
+        for p, r in zip(pts, res):
+            if r and r.get("outcome") in ("crash", "timeout") and not p.get("_fresh"):
+                if tier != "thorough" and (p.get("width", 0) >= 57 or p.get("series") == "extremes"):
+                    continue    # recorded SIGSEGV region (wrapped int8 cursors): dies under the recovering build too
+                aborted.append({"rec": fn, "p": p})
+        return res
+
     pts11 = C11.points(tier)
     if tier != "thorough":
         # every crash costs a worker restart under ASan: in the quick tier the region with recorded defects
         # (delta miniblock widths >= 29) is represented by its boundary widths only
         pts11 = [p for p in pts11 if not (p["prim"] == "delta" and p["width"] >= 29
                                           and p["width"] not in (29, 32, 33, 56, 57, 64))]
-    run.lattice("C11-primitives", pts11, "run_c11")
+    lattice("C11-primitives", pts11, "run_c11")
+    lattice("C12-primitives", prim12_points(tier), "run_prim12")
+    # the primitive cells hand numpy (malloc) buffers to the native code; everything below goes through Python
+    # objects as well: bytes objects below 512 bytes get redzones only with the system allocator.  (A second pool:
+    # worker start-up is slower with it, and most aborts - each one a worker restart - are in the primitive cells.)
+    run.close()
+    crashes0 = run.extra_crashes
+    run.env["PYTHONMALLOC"] = "malloc"
     I = C10.idl()
     pts = C10.struct_points(I, tier) + C10.nesting_points(tier)
-    run.lattice("C10-thrift", pts, "run_c10")
-    big = C10.big_points("thorough")
-    run.lattice("C10-big", big, "run_c10")
+    lattice("C10-thrift", pts, "run_c10", collect=False)
+    big = C10.big_points("thorough") + (C10.agg_points(tier) if hasattr(C10, "agg_points") else [])
+    lattice("C10-big", big, "run_c10", collect=False)
+    lattice("C12-sizing", sizing_points(tier), "run_sizing", collect=False)
     try:
         from mc.props import C03
     except ImportError:
         C03 = None
     if C03 is not None:
-        pts03 = C03.points_native(tier)
-        if tier != "thorough":
-            pts03 = [p for p in pts03 if not (p["d"] == "D1" and (p.get("cats") or p["enc"] == "PLAIN_DICTIONARY"))]
-        run.lattice("C03-D1-D3", pts03, "run_c03")
+        lattice("C03-native", c03_points(tier), "run_c03")
+    try:
+        lattice("C15-nested", c15_points(tier), "run_c15")
+    except ImportError:
+        pass
+    lattice("written", written_points(tier), "run_written12")
+    # ---- second pass: the aborted cells, to their end, under the recovering build
+    if aborted:
+        run.close()
+        crashes = run.extra_crashes + crashes0
+        build.FLAGS.setdefault("asanrec", REC_FLAGS)
+        top2, env2, _ = build.overlay("asanrec")
+        old = run.env
+        try:
+            for k in ("LD_PRELOAD", "PYTHONMALLOC"):
+                env2[k] = old[k]
+            env2["ASAN_OPTIONS"] = old["ASAN_OPTIONS"].replace("abort_on_error=1", "abort_on_error=1:halt_on_error=0")
+            env2["UBSAN_OPTIONS"] = old["UBSAN_OPTIONS"].replace("halt_on_error=1", "halt_on_error=0")
+            run.env = env2
+            lattice("aborted-cells-recovering", aborted, "run_rec", collect=False)
+            run.close()
+            run.extra_crashes += crashes
+        finally:
+            run.env = old
+            build.cleanup(top2)
+    else:
+        run.close()
+        run.extra_crashes += crashes0
+
+
+def _pyx_frame(txt):
+    """innermost frame of the extension modules in a report"""
+    fr = re.findall(r"#\d+ 0x[0-9a-f]+ in (__pyx_\w+)", txt)
+    return _short(fr[0]) if fr else None
 
 
 def _sanitizer(log):
+    acc = re.search(r"^(READ|WRITE) of size", log, flags=re.M)
+    extra = {"access": acc.group(1)} if acc else {}
     m = re.search(r"SUMMARY: AddressSanitizer: ([\w-]+) \S+ in (\w+)", log)
     if m:
-        return {"sanitizer": "asan", "error": m.group(1), "func": _short(m.group(2))}
+        return dict({"sanitizer": "asan", "error": m.group(1), "func": _short(m.group(2))}, **extra)
+    m = re.search(r"SUMMARY: AddressSanitizer: ([\w-]+) .* in (__asan_mem\w+|__interceptor_\w+|mem\w+)\s*$", log, flags=re.M)
+    if m:
+        # the fault is inside an intercepted libc routine: name the extension function that called it
+        e = re.search(r"ERROR: AddressSanitizer", log)
+        func = _pyx_frame(log[e.end():] if e else log) or re.sub(r"^__(asan|interceptor)_", "", m.group(2))
+        return dict({"sanitizer": "asan", "error": m.group(1), "func": func}, **extra)
     m = re.search(r"ERROR: AddressSanitizer: ([\w-]+)", log)
     if m:
         kind = m.group(1)
@@ -57,7 +201,7 @@ def _sanitizer(log):
         fr = re.findall(r"#\d+ 0x[0-9a-f]+ in (__pyx_\w+)", log[m.end():])
         if fr:
             func = fr[0]
-        return {"sanitizer": "asan", "error": kind, "func": _short(func)}
+        return dict({"sanitizer": "asan", "error": kind, "func": _short(func)}, **extra)
     m = re.search(r"runtime error: ([^\n]+)", log)
     if m:
         msg = re.sub(r"-?\d+", "N", m.group(1))[:60]
@@ -74,16 +218,48 @@ def _short(f):
     return f[:60]
 
 
+SIG_KEYS = ("width", "itemsize", "longval", "series", "where", "struct", "count", "shape", "elem", "enc", "v",
+            "type", "codec", "pv", "colkind", "cats")
+
+
+def _driver(point):
+    return (point.get("prim") or point.get("prim12") or point.get("kind") or point.get("d")
+            or ("nested" if "elem" in point else None))
+
+
 def crash_sig(point, res):
+    if "rec" in point:
+        # a cell of the recovering pass died all the same (SIGSEGV, or a report that cannot be recovered from).
+        # The worker's log holds the recovered reports of earlier cells too: the fatal one is the last.
+        s = crash_sig(point["p"], res)
+        s["mode"] = "recover"
+        head = res.get("log_tail", "").split("\n----\n", 1)[0]
+        last = [l for l in head.splitlines() if l.startswith("SUMMARY: AddressSanitizer")][-1:]
+        m = re.search(r"SUMMARY: AddressSanitizer: ([\w-]+) .* in (\w+)\s*$", last[0]) if last else None
+        if m:
+            s.update(sanitizer="asan", error=m.group(1), func=_short(m.group(2)))
+            s.pop("access", None)
+        return s
     s = _sanitizer(res.get("log_tail", ""))
     s["symptom"] = res["outcome"]
-    s["driver"] = point.get("prim") or point.get("kind") or point.get("d")
-    for k in ("width", "itemsize", "longval", "series", "where", "struct", "count"):
+    s["driver"] = _driver(point)
+    for k in SIG_KEYS:
         if k in point:
             s[k] = point[k]
-    if "n" in point and point.get("kind") == "big":
+    if "n" in point and point.get("kind") in ("big", "sizing"):
         s["size_class"] = ">500000" if point["n"] > 500000 else "<=500000"
     return s
+
+
+def _reports(txt):
+    """the distinct (sanitizer, error, func, access) of the reports in a piece of worker log"""
+    starts = [m.start() for m in re.finditer(r"^(=+\d+=+ERROR: AddressSanitizer|\S+:\d+:\d+: runtime error:)", txt, flags=re.M)]
+    out = {}
+    for i, a in enumerate(starts):
+        blk = txt[a:starts[i + 1] if i + 1 < len(starts) else len(txt)]
+        r = _sanitizer(blk)
+        out.setdefault(repr(sorted(r.items())), r)
+    return list(out.values())
 
 
 def _filter(res, driver):
@@ -117,10 +293,342 @@ def run_c03(point):
     return _filter(C03.run(point), "c03")
 
 
-LEVEL_TEXT = ("The same finite lattices that decide C11 and C10 (and C03's width lattices) are executed against an "
+def run_c15(point):
+    from mc.props import C15
+    return _filter(C15.run(point), "nested")
+
+
+def run_rec(point):
+    """recovering build: run the cell to its end, every distinct sanitizer report is a signature"""
+    import os
+    import sys
+    inner = point["p"]
+    sys.stderr.flush()
+    try:
+        start = os.fstat(2).st_size
+    except OSError:
+        start = None
+    res = globals()[point["rec"]](inner)
+    sys.stderr.flush()
+    txt = ""
+    if start is not None:
+        try:
+            with open("/proc/self/fd/2", "rb") as f:
+                f.seek(start)
+                txt = f.read().decode("utf8", "replace")
+        except OSError:
+            txt = ""
+    reps = _reports(txt)
+    if res.get("outcome") == "harness_error" and not reps:
+        return res
+    sigs = list(res.get("sig") or []) if isinstance(res.get("sig"), list) else ([res["sig"]] if res.get("sig") else [])
+    for r in reps:
+        s = dict(r, symptom="sanitizer_report", mode="recover", driver=_driver(inner))
+        for k in SIG_KEYS:
+            if k in inner:
+                s[k] = inner[k]
+        sigs.append(s)
+    out = {"ok": not sigs, "outcome": "in_bounds" if not sigs else ("sanitizer_report" if reps else res.get("outcome")),
+           "nontrivial": bool(res.get("nontrivial")), "counts": res.get("counts"),
+           "detail": "reports of the recovering pass: %s" % ", ".join(
+               "%s %s in %s" % (r.get("access", ""), r["error"], r["func"]) for r in reps)[:300] if reps else res.get("detail", "")}
+    if sigs:
+        out["sig"] = sigs
+    return out
+
+
+# ---------------------------------------------------------------------------- S: buffer sizing of to_bytes
+def run_sizing(point):
+    import pickle
+    import numpy as np
+    from fastparquet import cencoding as ce
+    from mc.props import C10
+    from mc.specpq.thrift import codec
+    I = C10.idl()
+    where, n = point["where"], point["n"]
+    if where == "write_hive_wide":
+        import os
+        import pandas as pd
+        import fastparquet
+        from mc.scratch import scratch
+        df = pd.DataFrame({("column_number_%05d" % i): np.arange(2, dtype="int64") for i in range(n)})
+        try:
+            fastparquet.write(os.path.join(scratch(), "wide"), df, file_scheme="hive")
+        except Exception as e:
+            return {"ok": True, "outcome": "refused", "nontrivial": True, "detail": "%s: %s" % (type(e).__name__, e)}
+        return {"ok": True, "outcome": "in_bounds", "nontrivial": True}
+    sname = "FileMetaData"
+    if where == "kv_r0":
+        # a footer without row groups (_common_metadata): the estimate is len(str(key_value_metadata)) alone
+        v = C10.fmd_value(I, 0, 1, 1)
+        v["key_value_metadata"][0]["value"] = "v" * n
+    elif where == "path_in_schema":
+        v = C10.fmd_value(I, 1, 1, 1)
+        v["row_groups"][0]["columns"][0]["meta_data"]["path_in_schema"] = ["p" * n]
+    elif where == "stat_max":
+        v = C10.fmd_value(I, 1, 1, 1)
+        v["row_groups"][0]["columns"][0]["meta_data"]["statistics"] = {"max": b"M" * n, "min": b"m", "null_count": 0}
+    elif where == "rowgroup_root":
+        sname = "RowGroup"
+        v = C10.fmd_value(I, 1, 600, 0)["row_groups"][0]
+        for ch in v["columns"]:
+            ch["meta_data"]["statistics"] = {"max": b"M" * n, "min": b"m" * n, "null_count": 0}
+    else:
+        raise KeyError(where)
+    if point["route"] == "R1":
+        x = C10.build_r1(I, sname, C10.r1_filter(I, sname, v))
+    else:
+        raw = codec().encode(sname, v)
+        x = ce.ThriftObject(sname, ce.from_buffer(np.frombuffer(raw, dtype=np.uint8).copy()))
+    try:
+        y = bytes(x.to_bytes())
+        z = pickle.loads(pickle.dumps(x))
+    except Exception as e:
+        return {"ok": True, "outcome": "refused_too_large", "nontrivial": True, "detail": "%s: %s" % (type(e).__name__, e)}
+    return {"ok": True, "outcome": "in_bounds", "nontrivial": True, "counts": {"bytes": len(y)}}
+
+
+# ---------------------------------------------------------------------------- P: primitives, large counts / item lengths
+CANARY = 0xA5
+
+
+def _obuf(np, nbytes):
+    big = np.full(nbytes + 64, CANARY, dtype=np.uint8)
+    return big, big[32:32 + nbytes]
+
+
+def _ibuf(np, data):
+    a = np.empty(max(len(data), 1), dtype=np.uint8)     # exact-size heap allocation
+    if len(data):
+        a[:len(data)] = np.frombuffer(bytes(data), dtype=np.uint8)
+    return a
+
+
+class _P:
+    def __init__(self, point):
+        self.point, self.calls, self.vals, self.sigs, self.detail = point, 0, 0, {}, ""
+
+    def bad(self, symptom, detail, **extra):
+        s = dict({"driver": self.point["prim12"], "symptom": symptom}, **extra)
+        if "longval" in self.point:
+            s["longval"] = self.point["longval"]
+        self.sigs.setdefault(repr(sorted(s.items())), s)
+        self.detail = self.detail or detail
+
+    def out(self, np, big, out, isz, expect, tell, cap, what, fn):
+        """canaries, count, and the values (a counter narrower than the count shows here first)"""
+        self.calls += 1
+        n = min(len(expect), cap)
+        self.vals += n
+        if not bool((big[:32] == CANARY).all() and (big[32 + len(out):] == CANARY).all()):
+            self.bad("canary_overwritten", "%s: bytes outside the output slice were written" % what, fn=fn)
+        if tell != n * isz:
+            self.bad("counter_wrong_count", "%s: tell()=%d, expected %d values" % (what, tell, n), fn=fn)
+        dt = {1: np.uint8, 4: np.uint32, 8: np.uint64}[isz]
+        got = out[:n * isz].view(dt)
+        exp = np.array(expect[:n], dtype=dt) if n else np.empty(0, dtype=dt)
+        if not np.array_equal(got, exp):
+            i = int(np.nonzero(got != exp)[0][0])
+            self.bad("counter_wrong_value", "%s: value %d is %d, specification says %d" % (what, i, int(got[i]), int(exp[i])), fn=fn)
+
+    def result(self):
+        ok = not self.sigs
+        return {"ok": ok, "outcome": "in_bounds" if ok else "wrong", "nontrivial": self.vals > 0,
+                "counts": {"calls": self.calls, "compared_values": self.vals},
+                "sig": list(self.sigs.values()) or None, "detail": self.detail}
+
+
+def run_prim12(point):
+    import numpy as np
+    from fastparquet import cencoding as ce
+    c = _P(point)
+    globals()["_p12_" + point["prim12"]](c, point, np, ce)
+    return c.result()
+
+
+def _caps(n):
+    return (n - 1, n, n + 1)
+
+
+def _p12_rle_big(c, p, np, ce):
+    n = BIG_N
+    for w, isz in ((1, 1), (8, 1), (9, 4), (24, 4)):
+        v = (1 << w) - 1
+        data = v.to_bytes((w + 7) // 8, "little")
+        for cap in _caps(n):
+            big, out = _obuf(np, cap * isz)
+            o = ce.NumpyIO(out)
+            ce.read_rle(ce.NumpyIO(_ibuf(np, data)), n << 1, w, o, isz)
+            c.out(np, big, out, isz, [v] * n, o.tell(), cap, "read_rle(count=%d,width=%d,cap=%d)" % (n, w, cap), "read_rle")
+
+
+def _p12_bitpacked_big(c, p, np, ce):
+    from mc.specpq import codecs as C
+    n = BIG_N
+    for w, isz in ((1, 1), (3, 1), (8, 1), (12, 4), (24, 4)):
+        vals = [(i * 2654435761 >> 5) & ((1 << w) - 1) for i in range(n)]
+        data = C.bitpack(vals, w)
+        for cap in _caps(n):
+            big, out = _obuf(np, cap * isz)
+            o = ce.NumpyIO(out)
+            fo = ce.NumpyIO(_ibuf(np, data))
+            ce.read_bitpacked(fo, ((n // 8) << 1) | 1, w, o, isz)
+            c.out(np, big, out, isz, vals, o.tell(), cap, "read_bitpacked(groups=%d,width=%d,cap=%d)" % (n // 8, w, cap),
+                  "read_bitpacked")
+            if fo.tell() != len(data):
+                c.bad("counter_wrong_position", "read_bitpacked consumed %d of %d bytes" % (fo.tell(), len(data)), fn="read_bitpacked")
+
+
+def _p12_hybrid_big(c, p, np, ce):
+    import struct
+    from mc.specpq import codecs as C
+    n = BIG_N
+    for w, isz in ((1, 1), (3, 1), (12, 4)):
+        m = (1 << w) - 1
+        bp = [(i * 2654435761 >> 5) & m for i in range(n)]
+        for prog, vals in (([("rle", n)], [m] * n), ([("bp", n)], bp), ([("rle", n), ("bp", n)], [m] * n + bp),
+                           ([("bp", n), ("rle", n)], bp + [1] * n)):
+            data = C.hybrid_encode(vals, w, prog)         # run headers of three bytes
+            for cap in _caps(len(vals)):
+                for mode in ("length", "prefix"):
+                    raw = data if mode == "length" else struct.pack("<I", len(data)) + data
+                    big, out = _obuf(np, cap * isz)
+                    o = ce.NumpyIO(out)
+                    ce.read_rle_bit_packed_hybrid(ce.NumpyIO(_ibuf(np, raw)), w, len(data) if mode == "length" else 0, o, isz)
+                    c.out(np, big, out, isz, vals, o.tell(), cap, "hybrid(prog=%s,width=%d,cap=%d,%s)" % (prog, w, cap, mode),
+                          "read_rle_bit_packed_hybrid")
+
+
+def _p12_bool_big(c, p, np, ce):
+    from mc.specpq import codecs as C
+    from fastparquet import encoding as enc
+    for n in (BIG_N, BIG_N + 1):
+        vals = [(i * 2654435761 >> 7) & 1 for i in range(n)]
+        data = C.bitpack(vals, 1)
+        for cap in _caps(n):
+            big, out = _obuf(np, cap)
+            o = ce.NumpyIO(out)
+            ce.read_bitpacked1(ce.NumpyIO(_ibuf(np, data)), n, o)
+            c.out(np, big, out, 1, vals, o.tell(), cap, "read_bitpacked1(n=%d,cap=%d)" % (n, cap), "read_bitpacked1")
+        got = enc.read_plain_boolean(bytes(data), n)
+        c.calls += 1
+        if got.tolist() != [bool(v) for v in vals]:
+            c.bad("counter_wrong_value", "read_plain_boolean(n=%d)" % n, fn="read_plain_boolean")
+
+
+def _p12_delta_big(c, p, np, ce):
+    from mc.specpq import codecs as C
+    lv = p["longval"]
+    bits, isz = (64, 8) if lv else (32, 4)
+    n = BIG_N                                   # 69999 deltas: not 1 modulo a block size
+    for block, mini in ((128, 4), (1024, 4)):
+        vals = [i * 3 + (i * 2654435761 >> 9) % 5 - 100000 for i in range(n)]
+        data = C.delta_encode(vals, bits, block, mini, None)
+        for cap in (n, n + 1):
+            big, out = _obuf(np, cap * isz)
+            o = ce.NumpyIO(out)
+            ce.delta_binary_unpack(ce.NumpyIO(_ibuf(np, data)), o, lv)
+            c.out(np, big, out, isz, [v & ((1 << bits) - 1) for v in vals], o.tell(), cap,
+                  "delta_binary_unpack(count=%d,block=%d/%d,cap=%d)" % (n, block, mini, cap), "delta_binary_unpack")
+
+
+def _p12_byte_array_big(c, p, np, ce):
+    from mc.specpq import codecs as C
+    from fastparquet import speedups as sp
+    n = BIG_N
+    for utf in (0, 1):
+        items = [bytes([97 + i % 26]) for i in range(n)]
+        spec = C.plain_encode(items, "BYTE_ARRAY")
+        packed = sp.pack_byte_array(list(items))
+        c.calls += 1
+        if bytes(packed) != spec:
+            c.bad("counter_wrong_value", "pack_byte_array of %d one-byte items" % n, fn="pack_byte_array")
+        for k in _caps(n):
+            got = sp.unpack_byte_array(_ibuf(np, spec), k, utf)
+            c.calls += 1
+            c.vals += min(k, n)
+            exp = [(b.decode() if utf else b) for b in items[:k]]
+            if len(got) != k or list(got[:min(k, n)]) != exp:
+                c.bad("counter_wrong_value", "unpack_byte_array(%d one-byte items, n=%d, utf=%d)" % (n, k, utf), fn="unpack_byte_array")
+
+
+LENS12 = list(range(0, 18)) + [31, 32, 33, 63, 64, 65]
+
+
+def _p12_byte_array_lens(c, p, np, ce):
+    """every small item length as the only and as the last item of an exact-size buffer"""
+    from mc.specpq import codecs as C
+    from fastparquet import speedups as sp
+    for ln in LENS12:
+        for flavour in ("bytes", "ascii", "utf2", "utf3"):
+            if flavour == "bytes":
+                last, utf = bytes((7 * j + ln) % 256 for j in range(ln)), 0
+            elif flavour == "ascii":
+                last, utf = b"x" * ln, 1
+            elif flavour == "utf2":
+                last, utf = ("é" * (ln // 2) + "y" * (ln % 2)).encode(), 1
+            else:
+                last, utf = ("中" * (ln // 3) + "z" * (ln % 3)).encode(), 1
+            for head in ([], [b"12345"], [b""]):
+                items = head + [last]
+                spec = C.plain_encode(items, "BYTE_ARRAY")
+                if bytes(sp.pack_byte_array(list(items))) != spec:
+                    c.bad("wrong_value", "pack_byte_array(%r lengths)" % ([len(x) for x in items],), fn="pack_byte_array")
+                k = len(items)
+                for n in (k, k + 1):
+                    got = sp.unpack_byte_array(_ibuf(np, spec), n, utf)
+                    c.calls += 1
+                    c.vals += k
+                    exp = [(b.decode("utf8") if utf else b) for b in items]
+                    if len(got) != n or list(got[:k]) != exp:
+                        c.bad("wrong_value", "unpack_byte_array(lengths=%r,n=%d,%s)" % ([len(x) for x in items], n, flavour),
+                              fn="unpack_byte_array")
+
+
+# ---------------------------------------------------------------------------- W: native write path, self-made read paths
+def run_written12(point):
+    """one fastparquet write and read per column kind: array_encode_utf8 / pack_byte_array / the writer's level and
+    dictionary encoders / to_bytes of real structures, and the reader's fast paths for files it wrote itself.
+    Exceptions and values are other properties' business."""
+    import os
+    import pandas as pd
+    import fastparquet
+    from mc import alphabets as A, wr
+    from mc.scratch import scratch
+    kind, v = point["colkind"], point["v"]
+    d = scratch()
+    files = 0
+    for pat in (["none", "alt", "all"] if kind in A.NULLABLE_KINDS else ["none"]):
+        for n in (9, 65):
+            for scheme in ("simple", "hive"):
+                try:
+                    df = pd.DataFrame({"c": A.series(kind, n, pat), "k": A.series("int64", n, "none", 1, "k")})
+                except Exception:
+                    continue
+                path = os.path.join(d, "w%d%s%s" % (n, pat, scheme))
+                try:
+                    with wr.PageCfg(v, wr.tiny_page_size(df, 4)):
+                        fastparquet.write(path, df, file_scheme=scheme, row_group_offsets=[0, n // 2],
+                                          write_index=False, stats=True, compression="SNAPPY" if n == 65 else None)
+                    pf = fastparquet.ParquetFile(path)
+                    pf.to_pandas()
+                    files += 1
+                    if pf.categories:
+                        pf.to_pandas(categories={})
+                except Exception:
+                    continue
+    return {"ok": True, "outcome": "in_bounds", "nontrivial": files > 0, "counts": {"files": files}}
+
+
+LEVEL_TEXT = ("The same finite lattices that decide C11 and C10 (and C03's width, multi-page, codec and categorical "
+              "lattices, C15's nested lattice, one write+read per column kind, counts above 2^16 and the buffer-sizing "
+              "points of the metadata serialiser) are executed against an "
               "address- and undefined-behaviour-sanitised build of the two extension modules compiled from the "
-              "working tree, inside a crash-containing pool that attributes every abort to one input. Absence of "
+              "working tree, inside a crash-containing pool that attributes every abort to one input; aborted cells "
+              "are then run to their end under a recovering build so that a recorded defect does not hide what "
+              "follows it in the cell. Absence of "
               "reports over the whole lattice is the strongest statement available without a proof of the C code.")
-LEVEL_NOTE = ("Trusted: clang 14 ASan/UBSan runtime, CPython/numpy under LD_PRELOAD. Alignment checks disabled "
-              "on purpose. Only code reached by the lattices is covered.")
+LEVEL_NOTE = ("Trusted: clang 14 ASan/UBSan runtime, CPython/numpy under LD_PRELOAD with PYTHONMALLOC=malloc. Alignment "
+              "checks disabled on purpose. Only code reached by the lattices is covered. Known findings are matched on "
+              "sanitizer, error and function, so a different report in the same cell is a violation.")
 TECHNIQUE = "bounded exhaustive enumeration re-executed under ASan+UBSan with crash attribution per input"
